@@ -113,8 +113,6 @@ func (cache *cmdCache) Shutdown() {
 func write(w io.WriteCloser, target *core.BuildTarget, files []string, cancel context.CancelFunc) {
 	defer w.Close()
 	tw := tar.NewWriter(w)
-
-	defer tw.Close()
 	outDir := target.OutDir()
 
 	for _, out := range files {
@@ -124,9 +122,15 @@ func write(w io.WriteCloser, target *core.BuildTarget, files []string, cancel co
 			log.Warning("Error sending artifacts to command-driven cache: %s", err)
 			// kill the running command
 			cancel()
+			// Anything the command has spawned can outlive it and still store what it has read so far.
+			// Don't terminate the archive; follow it with a block that no tar reader accepts as a
+			// header, so whatever gets stored can never be retrieved as a complete artifact.
+			tw.Flush()
+			w.Write(bytes.Repeat([]byte{0xff}, 512))
 			return
 		}
 	}
+	tw.Close()
 }
 
 func newCmdCache(config *core.Configuration) *cmdCache {
